@@ -4,7 +4,8 @@ from harness import core, pipelib
 
 ID = 'C01'
 MODULE = 'Gpv.Props.C01'
-THEOREMS = core.theorems('C01')
+MODULES = ['Gpv.Props.C01', 'Gpv.Props.C13Stage']
+THEOREMS = core.theorems('C01', 'C13Stage')
 RULE = ('scenario = (nworkers 0-4, extracache 0-3, skipNone, maxtasksperchild, function kind module/lambda/closure, kwargs, '
         'per-element outcome table over unique values, None and a zoo of falsy/array/hostile values); free-running and forced '
         'worker schedules (a controller process releases per-element semaphores in a prescribed priority order, bursts included); '
